@@ -134,6 +134,13 @@ pub fn allowed_kinds(name: &str, imports: &[String], declared: &[String], keys: 
         }
     }
     if !out.is_empty() {
+        // a reference written with the full qualified name of a built-in that the file imports while the project
+        // ALSO registers a file under that key: the statement does not say which wins; both are accepted
+        if let Some(b) = builtin_by_qualified(name) {
+            if imports.iter().any(|i| i == name) && !out.contains(&TypeKind::AndroidType(b.clone())) {
+                out.push(TypeKind::AndroidType(b));
+            }
+        }
         return out;
     }
     if !name.contains('.') && declared.iter().any(|d| d == name) {
